@@ -104,12 +104,16 @@ impl Symbols {
 }
 
 pub fn deduce_address(tokens: &[u8]) -> u16 {
+    if tokens.len()<5 {
+        // empty program (end marker only) or truncated data: nothing to deduce from, use the standard start
+        return 2049;
+    }
     let line2_addr = u16::from_le_bytes([tokens[0],tokens[1]]);
     let mut line2_rel = 4;
-    while tokens[line2_rel]>0 {
+    while line2_rel<tokens.len() && tokens[line2_rel]>0 {
         line2_rel += 1;
     }
-    return line2_addr - line2_rel as u16 - 1;
+    return line2_addr.wrapping_sub(line2_rel as u16).wrapping_sub(1);
 }
 
 /// Extract variable name from syntax node
